@@ -402,6 +402,9 @@ func replay(path string, x *runner) {
 	if err := t.build(); err != nil {
 		vt.Fatal("replay: cannot construct primitive: %v", err)
 	}
+	if v, ok := e["lay"].(float64); ok {
+		x.lay = int(v) // same placement of the inputs in the caller's frame
+	}
 	switch str("ev") {
 	case "encrypt":
 		x.encrypt(t, vt.Unhex(str("pt")), hexOrNil("ad", "adnil"))
